@@ -507,6 +507,11 @@ func (app *App) stateManager() appState {
 				return stateManager
 			}
 			err = app.performSwitchover(clusterState, activeNodes, switchover, master)
+			if !app.AcquireLock(pathManagerLock) {
+				// the outcome must be recorded by the lock holder only: our copy of the request may be stale
+				app.logger.Error().Err(err).Msg("manager lock lost during switchover, leaving the request to the new manager")
+				return stateManager
+			}
 			if errors.Is(app.GetCurrentSwitchover(new(Switchover)), dcs.ErrNotFound) {
 				app.logger.Error().Msgf("switchover was aborted")
 			} else {
